@@ -70,7 +70,7 @@ GAdd    == \E n \in OpNames, rep \in BOOLEAN, enc \in Encs, big \in BigChoice : 
 GRemove == \E n \in OpNames : BeginRemove(n) /\ hist' = Append(hist, OpRec("remove", n, "", TRUE, "none", "none"))
 GRename == \E a \in OpNames, b \in OpNames : BeginRename(a, b) /\ hist' = Append(hist, OpRec("rename", a, b, TRUE, "none", "none"))
 GFlush  == (FlushClean \/ FlushRelocateV12 \/ FlushV3Broken) /\ hist' = Append(hist, OpRec("flush", "", "", TRUE, "none", "none"))
-GCompact == (CompactFresh \/ CompactV3) /\ hist' = Append(hist, OpRec("compact", "", "", TRUE, "none", "none"))
+GCompact == (CompactFresh \/ CompactRefuseUnreadable \/ CompactV3) /\ hist' = Append(hist, OpRec("compact", "", "", TRUE, "none", "none"))
 \* reopen = drop the MutableArchive (flush on drop) and open the file again
 PredOf(img) == IF ~img.ok THEN [kind |-> "unopenable"]
                ELSE [kind |-> "map", map |-> View(img.slots, img.blocks, img.dmg), lf |-> img.lf,
@@ -90,7 +90,7 @@ Call == /\ More /\ (GMode = "bfs" \/ gkind # "") /\ gkind' = "" /\ UNCHANGED gdo
            \/ Allowed({"remove"}) /\ GRemove /\ UNCHANGED <<gres, gsr, gpreds>>
            \/ Allowed({"rename"}) /\ GRename /\ UNCHANGED <<gres, gsr, gpreds>>
            \/ Allowed({"flush"}) /\ GFlush /\ gres' = Append(gres, "ok") /\ gsr' = Append(gsr, "-") /\ UNCHANGED gpreds
-           \/ Allowed({"compact"}) /\ GCompact /\ gres' = Append(gres, "ok") /\ gsr' = Append(gsr, "-") /\ UNCHANGED gpreds
+           \/ Allowed({"compact"}) /\ GCompact /\ gres' = Append(gres, lastres') /\ gsr' = Append(gsr, "-") /\ UNCHANGED gpreds
            \/ Allowed({"reopen", "reopen2"}) /\ wopen /\ GClose /\ UNCHANGED <<gres, gsr>>
 \* after a close the only thing to do is to open again (or to stop); the first open is implicit
 Reopen == /\ ~gdone /\ pc = "idle" /\ ~wopen /\ ddisk.ok /\ gkind # "final" /\ (vcalls = 0 \/ Len(hist) < GMaxLen)
